@@ -87,6 +87,32 @@ def numpy_to_blackbird(A, var_name):
     return script
 
 
+def _populate_array(array, values):
+    """Replaces the free parameters contained in an array with their values.
+
+    Args:
+        array (array): NumPy array of dtype object containing SymPy expressions
+        values (dict[str, Number]): the values of the free parameters
+
+    Returns:
+        array: copy of the array with all free parameters substituted
+    """
+    populated_array = copy.deepcopy(array)
+    for idx in np.ndindex(array.shape):
+        if isinstance(array[idx], sym.Expr):
+            par = list(array[idx].free_symbols)
+            func = sym.lambdify(par, array[idx])
+
+            try:
+                vals = {str(p): values[str(p)] for p in par}
+            except KeyError:
+                raise ValueError("Invalid value for free parameter provided")
+
+            populated_array[idx] = func(**vals)
+
+    return populated_array
+
+
 def _format_value(v):
     """Formats a Python or NumPy value as a Blackbird literal.
 
@@ -295,6 +321,10 @@ class BlackbirdProgram:
 
                     op['args'][idx] = func(**vals)
 
+                elif isinstance(a, np.ndarray) and a.dtype == object:
+                    # array variable containing free parameters passed as an argument
+                    op['args'][idx] = _populate_array(a, kwargs)
+
             for k, v in op['kwargs'].items():
                 if isinstance(v, sym.Expr):
                     par = list(v.free_symbols)
@@ -306,6 +336,9 @@ class BlackbirdProgram:
                         raise ValueError("Invalid value for free parameter provided")
 
                     op['kwargs'][k] = func(**vals)
+
+                elif isinstance(v, np.ndarray) and v.dtype == object:
+                    op['kwargs'][k] = _populate_array(v, kwargs)
 
         # set values for variables and arrays
         for k, v in prog._var.items(): # pylint: disable=protected-access
